@@ -125,17 +125,47 @@ void h_ANodeCmp(void) { void *a, *b; w_ANodeCmp(a, b); VERIF_CANARY; }
 #endif
 
 /* ------------------------------------------------------------ PseudoRandom::getNext (libcola/pseudorandom.cpp) */
-#if defined(JOB_getNext)
+#if defined(JOB_getNext) || defined(JOB_getNext_contract)
+unsigned __CPROVER_uninterpreted_lcg(unsigned);
 double w_getNext(void *r)
 __CPROVER_requires(__CPROVER_is_fresh(r, sizeof(struct PseudoRandom)))
 /* as constructed by PseudoRandom(double) */
 __CPROVER_requires(R(r)->a == 214013 && R(r)->c == 2531011 && R(r)->m == 2147483648u && R(r)->range == 32767.0)
 /* the documented linear congruential generator: the next state and the output are functions of the seed only */
+#if defined(JOB_getNext)
 __CPROVER_ensures(R(r)->seed == ((__CPROVER_old(R(r)->seed) * 214013u + 2531011u) & 0x7fffffffu))
+#else
+/* as assumed by callers: the step as an uninterpreted function f of the seed (the enforced clause above is the instance
+ * f(s) = (s*214013 + 2531011) mod 2^31; two separately built 32-bit multipliers are not proved equal by any back end here) */
+__CPROVER_ensures(R(r)->seed == __CPROVER_uninterpreted_lcg(__CPROVER_old(R(r)->seed)))
+#endif
+#if defined(JOB_getNext)   /* the value clause is enforced by job PseudoRandom_getNext; callers that only need the state transition assume the rest */
 __CPROVER_ensures(__CPROVER_return_value == (double)(R(r)->seed >> 16) / 32767.0)
+#endif
 __CPROVER_assigns(R(r)->seed)
 ;
+#if defined(JOB_getNext)
 void h_getNext(void) { void *r; w_getNext(r); VERIF_CANARY; }
+#endif
+#endif
+
+/* ------------------------------------------------------------ ConstrainedFDLayout::offsetDir (libcola/colafd.cpp) */
+#if defined(JOB_offsetDir)
+/* C20: "the same calls on equal inputs give equal results regardless of what was computed before in the process".  The only
+ * randomness in libcola layout is the displacement of coincident nodes; it must draw on generator state that belongs to the
+ * layout object (seeded at construction), and on nothing that outlives it. */
+struct PACKED LayoutRandom { struct PseudoRandom random; };
+#define LR(p) (&((struct LayoutRandom *)(p))->random)
+#define LCG(s) __CPROVER_uninterpreted_lcg(s)
+void w_offsetDir(void *layout, double minD, double *out)
+__CPROVER_requires(__CPROVER_is_fresh(layout, sizeof(struct LayoutRandom)) && __CPROVER_is_fresh(out, 2 * sizeof(double)))
+__CPROVER_requires(LR(layout)->a == 214013 && LR(layout)->c == 2531011 && LR(layout)->m == 2147483648u && LR(layout)->range == 32767.0)
+/* exactly two draws from the object's own generator */
+__CPROVER_ensures(LR(layout)->seed == LCG(LCG(__CPROVER_old(LR(layout)->seed))))
+/* frame: nothing but that generator state and the result changes -- in particular no state shared between layout objects */
+__CPROVER_assigns(LR(layout)->seed, __CPROVER_object_whole(out))
+;
+void h_offsetDir(void) { void *l; double m; double *o; w_offsetDir(l, m, o); VERIF_CANARY; }
 #endif
 
 /* ------------------------------------------------------------ A* turn pruning is invariant under transposing the scene */
